@@ -23,7 +23,9 @@ EXPLANATION = ("Decided from MIR, for the code that orders and searches entries 
                "the values, by a sort whose key is the whole value (= C15-R4); (R8) every reordering of the entries is followed by a "
                "re-indexing, and in particular between each sort and the check that follows it (= C15-R1); (R9) no deferred word (an index "
                "offset bound to an entry) is evaluated before the stores are sorted (= C15-R11); (R10) the reader clamps the inline part of a "
-               "stored key before narrowing its length (= C02-R14); (R11) Schema::new keeps the list of sort keys as declared. NOT decided: that the writer's (prefix, value id, length) order and the reader's byte-wise order "
+               "stored key before narrowing its length (= C02-R14); (R11) Schema::new keeps the list of sort keys as declared; (R12) the creator cuts an array value at one point, "
+               "min(inline length of the column, length of the value): first half inline, second half to the value store, the length recorded is "
+               "that of the whole value. NOT decided: that the writer's (prefix, value id, length) order and the reader's byte-wise order "
                "agree for every key set, nor the result of a search on any store.")
 ASSUMPTIONS = ["rustc MIR construction and trait resolution", "slice / integer Ord::cmp as documented", "rayon par_sort_* sort by the comparator they are given"]
 
@@ -718,6 +720,48 @@ def r11_sort_keys_are_kept_as_declared(cx):
     cx.ob("R11", "R11/Schema.new/sort-keys-as-declared", not bad, f, "the sort_keys of the schema are the list given to Schema::new, unchanged (%s)" % (bad or "whole copy"))
 
 
+def r12_key_split(cx, rule="R12"):
+    """the writer orders array keys by (inline part, id of the stored part, length) and the reader rebuilds a key as inline
+    part + stored part: both rest on the creator cutting each value at ONE point, `min(inline length of the column, length of
+    the value)` -- the bytes before it go inline, the bytes after it go to the value store, the length recorded is the
+    length of the whole value. (ValueTransformer::next, the only place where an array value is taken apart.)"""
+    F = cx.F
+    f = F.one(regex=r"creator::directory_pack::ValueTransformer<.*> as std::iter::Iterator>::next$")
+    b = F.deep_body(f, only=r"creator::directory_pack::ValueTransformer", closures=True)
+    sp = [(i, t) for i, t in b.calls(r"impl \[.*\]>::split_at(_checked)?$|::split_at(_checked)?$") if not b.is_cleanup(i)]
+    if len(sp) != 1:
+        raise AnchorLost("ValueTransformer::next: %d split_at (one cut per array value expected)" % len(sp))
+    si, st_ = sp[0]
+    o = b.origins(st_["args"][1])
+    mins = [x[1] for x in o if x[0] == "call" and call_is(b.term(x[1]), r"cmp::min(::<.*>)?$|cmp::Ord>::min$")]
+    lens = [x[1] for x in o if x[0] == "call" and call_is(b.term(x[1]), r"\]>::len$|Vec::<u8>::len$|SmallVec.*::len$")]
+    consts = sorted(x[1] for x in o if x[0] == "const" and isinstance(x[1], int) and not isinstance(x[1], bool))
+    cx.ob(rule, rule + "/ValueTransformer.next/cut-at-min-of-inline-length-and-length", bool(mins) and bool(lens) and ("field", "fixed_array_len") in o and not consts, f,
+          "the value is cut at min(fixed_array_len of the column, its own length), nothing else (min: %s, len: %s, constants: %s)" % (bool(mins), bool(lens), consts or "none"), ln=st_.get("ln"))
+    av = [(i, t) for i, t in b.calls(r"StoreHandle::add_value(::<.*>)?$") if ("call", si) in b.origins(t["args"][1])]
+    stored_ok = len(av) == 1 and tuple_field_of_call(b, av[0][1]["args"][1], si) == 1
+    cx.ob(rule, rule + "/ValueTransformer.next/stored-part-is-what-follows-the-cut", stored_ok, f, "the part handed to the value store is the second half of the cut (field 1 of split_at)", ln=(av[0][1].get("ln") if av else None))
+    n = 0
+    bad = []
+    for i, blk in enumerate(b.blocks):
+        if blk.get("cleanup"):
+            continue
+        for s_ in blk["s"]:
+            rv = s_.get("rv") or {}
+            if s_["k"] == "assign" and rv.get("k") == "agg" and re.search(r"directory_pack::value::ArrayS?$", rv.get("adt", "")) and rv.get("fnames"):
+                n += 1
+                fields = dict(zip(rv["fnames"], rv["fields"]))
+                d_ok = "data" in fields and tuple_field_of_call(b, fields["data"], si) == 0
+                v_ok = "value_id" in fields and av and ("call", av[0][0]) in b.origins(fields["value_id"], through_calls=False)
+                so = b.origins(fields["size"], through_calls=False) if "size" in fields else set()
+                s_ok = any(x[0] == "call" and call_is(b.term(x[1]), r"::len$") and ("call", si) not in b.origins(b.term(x[1])["args"][0]) for x in so)
+                if not (d_ok and v_ok and s_ok):
+                    bad.append("line %s (inline part: %s, value id: %s, whole length: %s)" % (s_.get("ln"), d_ok, bool(v_ok), s_ok))
+    if n < 2:
+        raise AnchorLost("ValueTransformer::next builds %d array values" % n)
+    cx.ob(rule, rule + "/ValueTransformer.next/inline-part-id-and-whole-length", not bad, f, "each of the %d array values built carries the first half of the cut, the id the store gave for the second half, and the length of the whole value (%s)" % (n, bad or "ok"))
+
+
 def r8_reindexed_after_every_sort(cx):
     """= C15-R1 under C03: every reordering of the entries is followed by a re-indexing before anything consumes the order"""
     import c15
@@ -725,6 +769,7 @@ def r8_reindexed_after_every_sort(cx):
 
 
 RULES = [
+    ("R12", r12_key_split, 3),
     ("R11", r11_sort_keys_are_kept_as_declared, 1),
     ("R10", r10_key_lengths_are_compared_before_they_are_narrowed, 1),
     ("R9", r9_windows_resolved_on_final_positions, 1),
